@@ -762,8 +762,13 @@ def search(ctx):
             ctx.hist("search.toy_curves", "p=%d.%s" % (p, "even" if K.has_two_torsion(p, a, b) else "odd"))
             search_toy_curve(ctx, S, p, a, b)
         search_named(ctx, S)
+        S.flush()
     except Stop:
         ctx.cov["search_note"] = "search stopped after %d genuine violations" % S.genuine
+    try:
+        S.flush()              # K1 candidates still pending when the search stopped early
+    except Stop:
+        pass
     ctx.cov["search_evaluations"] = S.n
     ctx.cov["evaluations"] += S.n
     ctx.cov["distinct_nontrivial"] += S.nontrivial
